@@ -210,6 +210,7 @@ def compute(tier):
         probes = [o for o in vmeta["obligations"] if o["kind"] == "vacuity" and o["fn"] not in ext_body]
         vacuous = [o["id"] for o in probes if o["id"] not in vfailed]
         woven_text = open(os.path.join(cdir, "woven.rs")).read()
+        res["witnesses"] = run_witnesses(cdir)
         res.update({
             "meta": meta,
             "failed": failed,
@@ -232,6 +233,31 @@ def compute(tier):
         return res
     finally:
         fcntl.flock(lock, fcntl.LOCK_UN)
+
+
+def run_witnesses(cdir):
+    """build the replay crate against the current tree and run every witness scenario"""
+    rdir = os.path.join(VERIF, "replay")
+    env = dict(os.environ, CARGO_NET_OFFLINE="true", VERIF_REPO=REPO, CARGO_TARGET_DIR=os.path.join(rdir, "target"))
+    try:
+        b = subprocess.run(["cargo", "build", "--release", "--offline"], cwd=rdir, env=env, capture_output=True,
+                           text=True, timeout=900)
+        if b.returncode != 0:
+            return {"error": "replay crate does not build: " + b.stderr[-600:]}
+        r = subprocess.run([os.path.join(rdir, "target/release/ppg2_replay")], capture_output=True, text=True,
+                           timeout=300)
+        out = {}
+        for line in r.stdout.split("\n"):
+            line = line.strip()
+            if line.startswith("{"):
+                try:
+                    d = json.loads(line)
+                    out[d["witness"]] = d
+                except Exception:
+                    pass
+        return out
+    except Exception as e:  # noqa
+        return {"error": str(e)}
 
 
 def load_known():
@@ -301,9 +327,13 @@ def main():
         if o["id"] in failed:
             if o["id"] in r.get("unstable", []):
                 continue
-            if o["id"] in known_ids:
-                kf_lines.append(known_ids[o["id"]])
+            k = known_ids.get(o["id"])
+            w = r.get("witnesses", {}).get(k.get("witness", "")) if k else None
+            if k and (w is None or w.get("fails")):
+                # listed finding; its concrete witness (if any) still fails on the real code
+                kf_lines.append(dict(k, witness_result=w))
             else:
+                # not listed, or listed but its witness no longer fails: a different violation
                 viol.append(o)
     # a known finding that no longer fails is simply discharged (nothing is suppressed)
     fns_of = sorted(set(o["fn"] for o in mine))
@@ -340,7 +370,9 @@ def main():
         "verus_summary": r["verus_summary"],
         "vacuity_probes": r["vacuity"],
         "undecided_sites": [u for u in undecided if u["obligation"].split("/")[0] in fns_of],
-        "known_findings_hit": [k["obligation"] for k in kf_lines],
+        "known_findings_hit": [{"obligation": k["obligation"], "witness": k.get("witness"),
+                                "witness_result": k.get("witness_result")} for k in kf_lines],
+        "witness_replays": r.get("witnesses"),
         "not_decided_clauses": claim.get("not_decided", []),
         "unchecked_regions": claim.get("unchecked_regions", []),
         "results_from_cache": r.get("from_cache", False),
